@@ -3,7 +3,7 @@ import ast
 import re
 
 from ..loader import is_unknown
-from ..astutil import call_name
+from ..astutil import strip_doc, call_name
 from ..intervals import ISet, accepted_set, test_set, Undecidable
 from ..paths import enum_paths
 
@@ -98,21 +98,22 @@ def check(ctx):
     fn = ctx.need(m.funcs.get("is_result_code_error"), "bromelia.utils.is_result_code_error")
     construct = "bromelia.utils.is_result_code_error"
     p0 = fn.args.args[0].arg
+    from .. import sym
+    ANS = sym.S(p0)
+    EBIT = ("call", ("attr", ("attr", ANS, "header"), "is_error"), (), ())
     ok = True
     seen_true = False
-    for p in enum_paths(fn.body):
-        if p.term != "return" or p.term_node.value is None:
+    for p in sym.Interp().run(strip_doc(fn.body), sym.PathState({p0: ANS}, [], [])):
+        if p.term != "return" or p.value is None:
             continue
-        v = p.term_node.value
-        conds = {ast.unparse(t): tr for t, tr in p.conds()}
-        e = conds.get(f"{p0}.header.is_error()")
-        if isinstance(v, ast.Constant):
-            if v.value is True:
-                seen_true = True
-                ok = ok and e is True
-            elif v.value is False:
-                ok = ok and (e is False)
-        elif ast.unparse(v) == f"{p0}.header.is_error()":
+        e = [tv for c, tv in p.conds if c == EBIT]
+        e = e[0] if len(e) == 1 else None
+        if p.value is True:
+            seen_true = True
+            ok = ok and e is True
+        elif p.value is False:
+            ok = ok and (e is False)
+        elif p.value == EBIT or p.value == ("call", ("name", "bool"), (EBIT,), ()):
             seen_true = True
         else:
             ok = False
